@@ -9,7 +9,7 @@
 pub use cat_c04::*;
 
 /// Declarations excluded from C10 (non-idempotent custom sanitizers).
-pub const NOT_IDEMPOTENT: &[&str] = &["BumpU16", "Tagged", "HalfPair", "DoubleU8", "ScaleF64"];
+pub use cat_c04::NOT_IDEMPOTENT;
 
 pub fn c10_decls() -> Vec<usize> {
     (0..n_decls()).filter(|i| !NOT_IDEMPOTENT.contains(&decl_name(*i))).collect()
